@@ -13,7 +13,7 @@ EXPLANATION = (
     "element of find_references; the new text is the requested name; prepare_rename offers exactly identifier nodes; "
     "the request handlers contain no other panic-capable conversion on request-derived data than the documented "
     "folder/module lookups. That the edited sources compile to the same document is not decided.")
-EXPLANATION += ' Further clauses: (R4) QUALIFIER-LOCAL; (R5) fresh trees and location/position-independent names (shared C15.R1-R4, R6 and C09.R2); (R6) PREPARE-TARGET - the offered range is the identifier node rename replaces. (R7) HANDLER-NO-REJECT - no error value is constructed in the request handlers; (R8) BINDING-SOUND (shared C08.R1/R2).'
+EXPLANATION += ' Further clauses: (R4) QUALIFIER-LOCAL; (R5) fresh trees and location/position-independent names (shared C15.R1-R4, R6 and C09.R2); (R6) PREPARE-TARGET - the offered range is the identifier node rename replaces. (R7) HANDLER-NO-REJECT - no error value is constructed in the request handlers; (R8) BINDING-SOUND (shared C08.R1/R2). (R9) DEF-IDENT / CURSOR (shared C17.R1, C17.R5); R8 also shares C08.R3.'
 TECHNIQUE = "static analysis: kind-set agreement between producer and consumers + provenance of TextEdit ranges"
 
 
